@@ -25,12 +25,22 @@ pub fn generate(impl_group_idx: usize, mut impl_group: ImplGroup) -> Vec<ItemImp
         if let syn::Type::Path(mut self_ty) = (*example_impl.self_ty).clone() {
             gen_inherent_self_ty_args(&mut self_ty, &example_impl.generics);
 
-            impl_group
-                .item_impls
-                .iter_mut()
-                .for_each(|syn::ItemImpl { trait_, .. }| {
-                    *trait_ = Some((None, parse_quote!(#self_ty), parse_quote![for]));
-                });
+            zip(&mut impl_group.item_impls, &impl_group_ids).for_each(|(impl_, impl_group_id)| {
+                // NOTE: Params of the group are expressed over the params of the impl's own header
+                let path = impl_group_ids[0].is_superset(impl_group_id).map_or_else(
+                    || self_ty.path.clone(),
+                    |substitutions| {
+                        let self_ty_args = (
+                            Bounded((*impl_.self_ty).clone()),
+                            TraitBound(self_ty.path.clone()),
+                        );
+
+                        substitutions.apply(&self_ty_args).1.0
+                    },
+                );
+
+                impl_.trait_ = Some((None, path, parse_quote![for]));
+            });
 
             impl_group
                 .item_impls
